@@ -32,6 +32,11 @@ def bearer_cases(rng, tier):
             for ts in TOKSCOPES:
                 for rq in REQS:
                     out.append({"kind": "bearer", "header": h, "state": st, "tscope": ts, "required": rq})
+    # the Flask integration's own normalisation of the requirement (a plain string is ONE alternative requiring every word)
+    for ts in TOKSCOPES:
+        for rq in REQS:
+            for st in ("live", "revoked"):
+                out.append({"kind": "bearer", "header": "Bearer {t}", "state": st, "tscope": ts, "required": rq, "via": "flask"})
     return out
 
 
@@ -59,7 +64,8 @@ def jwt_cases(rng, tier):
 def cases(rng, tier):
     b = bearer_cases(rng, tier)
     if tier != "thorough":
-        b = rng.sample(b, 3000)
+        fl = [x for x in b if x.get("via") == "flask"]
+        b = rng.sample([x for x in b if x.get("via") != "flask"], 2800) + fl
     return b + jwt_cases(rng, tier)
 
 
@@ -99,6 +105,20 @@ def impl(c):
                 t.access_token_revoked_at = CLOCK()
             store.tokens.append(t)
         headers = {} if c["header"] is None else {"Authorization": c["header"].replace("{t}", "tok")}
+        if c.get("via") == "flask":
+            import flask
+            from authlib.integrations.flask_oauth2 import ResourceProtector as FlaskRP
+            frp = FlaskRP()
+            frp.register_token_validator(ms.MemBearerValidator(store))
+            app = flask.Flask("c10")
+            with app.test_request_context("/r", headers=headers):
+                try:
+                    tok = frp.acquire_token(c["required"])
+                    return {"decision": "served", "status": 200, "current": tok.access_token}
+                except OAuth2Error as e:
+                    return {"decision": e.error, "status": e.status_code, "www": "WWW-Authenticate" in dict(e.get_headers())}
+                except Exception as e:
+                    return {"raised": type(e).__name__, "msg": str(e)[:80]}
         out, tok = run_protector(rp, norm_req(c["required"]), headers)
         if tok is not None:
             out["current"] = tok.access_token
